@@ -215,6 +215,18 @@ pub fn gen_scenario(rng: &mut Rng, max_classes: usize) -> Scenario {
         }
         classes.push(c);
     }
+    if !have_module && rng.chance(1, 5) {
+        // a module descriptor whose uses / provides / main class point into the jar
+        let cfg = GenCfg { class_pool: pool.clone(), ..GenCfg::default() };
+        let major = *rng.pick(&[53u16, 55, 61, 65]);
+        let mut g = G { rng: &mut *rng, cfg: &cfg, major };
+        let module = g.module();
+        let mut c = Class { major, minor: 0, access: 0x8000, this_class: JS::new("module-info"), module: Some(module), ..Default::default() };
+        if rng.bool() { c.module_packages = Some(vec![JS::new("a/b"), JS::new("p")]); }
+        if rng.chance(2, 3) { c.module_main_class = Some(rng.pick(&pool).clone()); }
+        if rng.bool() { c.source_file = Some(JS::new("module-info.java")); }
+        classes.push(c); tags.insert("module-info".into());
+    }
     // ---- deliberate member shapes
     for c in &mut classes {
         if c.module.is_some() { continue; }
